@@ -441,7 +441,7 @@ def mutate(s, rng):
 PINNED = ['', 'abc', 'a{b}c', '{\\', '{\\}', '{\\a', '{a', '}', '}{', 'ab{\\cd', "de la Vall{\\'e}e Poussin", '\\ ', 'a\\ b', 'a\\~b', 'a~b',
           'What a Strange{ }and Bizzare Name! and Peterson', 'Jean--Pierre', '{\\TeX\\ and databases\\Dash\\TeX DBI}', 'And Now: BOOO!!!',
           '{\\noopsort{1973a}}{\\switchargs{--90}{1968}}', 'a{b{c', 'a}b}c', '{{\\a}}', 'x: y: {\\Z z} {Z}',
-          '{\\{', 'a{\\b{c', '{a{b}c d', '{{-', '{{~', '{{ ', '{{,', '{\\x{{y', '{a{b}c, d and e', '{a{b}c-d', 'a{b}c d}e f', 'The {\\TeX book \\noop}', 'And {\\Now: {BOOO}!!!}',
+          '{a\\b}', '{Sch\\"on}', 'x{a\\b c}{\\a\\b}{{\\a}}', '{\\{', 'a{\\b{c', '{a{b}c d', '{{-', '{{~', '{{ ', '{{,', '{\\x{{y', '{a{b}c, d and e', '{a{b}c-d', 'a{b}c d}e f', 'The {\\TeX book \\noop}', 'And {\\Now: {BOOO}!!!}',
           'a:  B c:\tD', 'a:B C', '{\\a B}:{\\c D} E', 'abcdef', 'ab{cd}', 'ab{\\cd}', 'level 0 {1 {\\2}}', '{\\a}{\\b}c', '{}', '{}{\\a}', 'a{\\}b',
           'x{y} and {z and w} AND v', ' and ', 'a and ', ' and and and ', 'a,,b,{c,d},', '-a--b-{-c-}-', '~a~~b\\ c\\~d ~']
 
